@@ -2,6 +2,7 @@ package main
 
 import (
 	"fmt"
+	"go/ast"
 	"go/types"
 
 	"golang.org/x/tools/go/ssa"
@@ -100,4 +101,135 @@ func (x *vc) recordExternalResult(fr *frame, callee *ssa.Function, res Val, guar
 	key := fmt.Sprintf("%s#%d", what, k)
 	x.callRes[key] = res
 	x.callGuard[key] = guard
+}
+
+// phiFuncCandidates: the repository functions under contract that a function-typed phi may hold (nil when v is not
+// such a phi, or when one of its edges is anything but a function under contract or the nil constant)
+func (x *vc) phiFuncCandidates(v ssa.Value) []*ssa.Function {
+	var out []*ssa.Function
+	seen := map[ssa.Value]bool{}
+	ok := true
+	var walk func(v ssa.Value)
+	walk = func(v ssa.Value) {
+		if seen[v] {
+			return
+		}
+		seen[v] = true
+		switch v := v.(type) {
+		case *ssa.Phi:
+			for _, e := range v.Edges {
+				walk(e)
+			}
+		case *ssa.Function:
+			if fc := x.p.cons.get(fnKey(v)); fc == nil || fc.inline {
+				ok = false
+			} else {
+				out = append(out, v)
+			}
+		case *ssa.Const:
+			if !v.IsNil() {
+				ok = false
+			}
+		default:
+			ok = false
+		}
+	}
+	if _, isPhi := v.(*ssa.Phi); !isPhi {
+		return nil
+	}
+	walk(v)
+	if !ok {
+		return nil
+	}
+	return out
+}
+
+// rtypeOfInit: the Go type whose descriptor the initialiser expression of a reflect.Type package variable builds
+// (nil when the expression is not one of the recognised forms). Forms: reflect.TypeOf(e) for e of a concrete static
+// type, X.Elem(), reflect.MapOf(K, V), reflect.SliceOf(E), reflect.PtrTo(E), and references to other immutable
+// package variables initialised that way.
+func (x *vc) rtypeOfInit(e ast.Expr, info *types.Info, depth int) types.Type {
+	if depth > 6 || e == nil || info == nil {
+		return nil
+	}
+	refGlobal := func(obj types.Object) types.Type {
+		v, ok := obj.(*types.Var)
+		if !ok || v.Pkg() == nil {
+			return nil
+		}
+		sp := x.p.spkgs[v.Pkg().Path()]
+		if sp == nil {
+			return nil
+		}
+		g, ok := sp.Members[v.Name()].(*ssa.Global)
+		if !ok || !x.globalImmutable(g) {
+			return nil
+		}
+		init, inf := x.p.findGlobalInit(g)
+		return x.rtypeOfInit(init, inf, depth+1)
+	}
+	switch e := e.(type) {
+	case *ast.ParenExpr:
+		return x.rtypeOfInit(e.X, info, depth+1)
+	case *ast.Ident:
+		return refGlobal(info.Uses[e])
+	case *ast.SelectorExpr:
+		if obj := info.Uses[e.Sel]; obj != nil {
+			return refGlobal(obj)
+		}
+	case *ast.CallExpr:
+		sel, ok := e.Fun.(*ast.SelectorExpr)
+		if !ok {
+			return nil
+		}
+		if pk, ok := sel.X.(*ast.Ident); ok {
+			if pn, ok := info.Uses[pk].(*types.PkgName); ok && pn.Imported().Path() == "reflect" {
+				var as []types.Type
+				for _, a := range e.Args {
+					if sel.Sel.Name == "TypeOf" {
+						t := info.TypeOf(a)
+						if t == nil || types.IsInterface(t) {
+							return nil
+						}
+						as = append(as, t)
+					} else {
+						t := x.rtypeOfInit(a, info, depth+1)
+						if t == nil {
+							return nil
+						}
+						as = append(as, t)
+					}
+				}
+				switch {
+				case sel.Sel.Name == "TypeOf" && len(as) == 1:
+					return as[0]
+				case sel.Sel.Name == "MapOf" && len(as) == 2:
+					return types.NewMap(as[0], as[1])
+				case sel.Sel.Name == "SliceOf" && len(as) == 1:
+					return types.NewSlice(as[0])
+				case (sel.Sel.Name == "PtrTo" || sel.Sel.Name == "PointerTo") && len(as) == 1:
+					return types.NewPointer(as[0])
+				}
+				return nil
+			}
+		}
+		if sel.Sel.Name == "Elem" && len(e.Args) == 0 {
+			switch t := x.rtypeOfInit(sel.X, info, depth+1).(type) {
+			case nil:
+				return nil
+			default:
+				switch u := t.Underlying().(type) {
+				case *types.Pointer:
+					return u.Elem()
+				case *types.Slice:
+					return u.Elem()
+				case *types.Array:
+					return u.Elem()
+				case *types.Map:
+					return u.Elem()
+				}
+			}
+		}
+	}
+	return nil
 }
